@@ -13,7 +13,7 @@ REQUIRED = ["Angle.__init__", "Angle.reduce_deg", "Angle.reduce_dms", "Angle.dms
             "Angle.__neg__", "Angle.__abs__", "Angle.__round__",
             "Angle.__add__", "Angle.__sub__", "Angle.__mul__", "Angle.__div__", "Angle.__truediv__",
             "Angle.__mod__", "Angle.__pow__",
-            "Angle.__isub__", "Angle.__imul__", "Angle.__idiv__", "Angle.__itruediv__",
+            "Angle.__iadd__", "Angle.__isub__", "Angle.__imul__", "Angle.__idiv__", "Angle.__itruediv__",
             "Angle.__imod__", "Angle.__ipow__",
             "Angle.__radd__", "Angle.__rsub__", "Angle.__rmul__", "Angle.__rdiv__", "Angle.__rtruediv__",
             "Angle.__rmod__", "Angle.__rpow__"]
@@ -217,7 +217,6 @@ def cases(rng, tier):
         if op == "**":
             a = rng.choice([a, abs(a), 12.5, 37.0, 5.0]); b = rng.choice([4.0, 3.0, 2.0, 0.5, b / 100]); x = rng.choice([2, 3, 0.5, 24.0, -2, x % 7 if isinstance(x, int) else 1.5])
         k = rng.random()
-        if op == "+" and k >= 0.75: k -= 0.5     # the model of __iadd__ is an artefact (see CLAUSES): searched only
         if k < 0.25: cs.append("Angle(%r) %s Angle(%r)" % (a, op, b))
         elif k < 0.5: cs.append("Angle(%r) %s %r" % (a, op, x))
         elif k < 0.75: cs.append("(%r) %s Angle(%r)" % (x, op, a))
